@@ -361,7 +361,7 @@ def check_model_value(desc, ctx, tag="value"):
     if tag == "value" and desc["model"] not in SCALAR_ONLY:
         # the same model asked for several pressures in one call (documented float or array): one value per pressure,
         # each the value the single call gives
-        ps = [p, _r6(p * 0.5), _r6(p * 0.125)]
+        ps = [_r6(p * 0.5), p, _r6(p * 0.125)]  # neither ascending nor descending
         many = np.asarray(mod.spreading_pressure(np.array(ps)), dtype=float)
         ctx.label("array_call")
         if many.shape != (3,):
@@ -474,12 +474,15 @@ def check_model_units(desc, ctx):
                     f"({p!r}) gives {native!r}", "unit_invariance", abs(conv - native), tol)
     if model not in SCALAR_ONLY:
         # several pressures in one call (documented float or list), in the query representation
-        pq2 = ru.conv_pressure(_r6(p * 0.5), nat, qry, fluid, desc["T"])
-        many = np.asarray(iso.spreading_pressure_at([pq, pq2], **kwargs), dtype=float)
+        # (three pressures in an order that is neither ascending nor descending)
+        pq2 = ru.conv_pressure(_r6(p * 0.25), nat, qry, fluid, desc["T"])
+        pq3 = ru.conv_pressure(_r6(p * 0.5), nat, qry, fluid, desc["T"])
+        many = np.asarray(iso.spreading_pressure_at([pq, pq2, pq3], **kwargs), dtype=float)
         one2 = float(iso.spreading_pressure_at(pq2, **kwargs))
-        if many.shape != (2,) or not (abs(many[0] - conv) <= 1e-12 * abs(conv) and abs(many[1] - one2) <= 1e-12 * abs(one2)):
-            raise Violation(f"{model} {desc['params']} (isotherm in {nat}): spreading_pressure_at([{pq!r}, {pq2!r}], {kwargs}) "
-                            f"= {many!r}, the single calls give {conv!r} and {one2!r}", tag="list_call")
+        one3 = float(iso.spreading_pressure_at(pq3, **kwargs))
+        if many.shape != (3,) or not all(abs(g - w) <= 1e-12 * abs(w) for g, w in zip(many, (conv, one2, one3))):
+            raise Violation(f"{model} {desc['params']} (isotherm in {nat}): spreading_pressure_at([{pq!r}, {pq2!r}, {pq3!r}], "
+                            f"{kwargs}) = {many!r}, the single calls give {conv!r}, {one2!r} and {one3!r}", tag="list_call")
     ctx.nt(_nt_key(desc, p, nat, qry), desc)
 
 
